@@ -11,3 +11,4 @@ pub mod coerce;
 pub mod typesys;
 pub mod depth;
 pub mod introspect;
+pub mod executor;
